@@ -250,13 +250,29 @@ def _job(job):
     fx = langs.fixture(sp)
     stats, viols = {}, []
     if kind == 'hist':
-        system = engine_hist._system(make_system, ('OPS',))
-        for hist in items:
+        lname, hists = items if isinstance(items, tuple) else ('OPS', items)
+        sp = lang_spec(lname)
+        system = engine_hist._system(make_system, (lname,))
+        for hist in hists:
             c = engine_hist.replay(system, hist)
-            case = {'source': 'history', 'history': [list(h) for h in hist]}
-            viols += roundtrip(system.fx, sp, c.model, case, stats)
+            case = {'source': 'history', 'language': lname, 'history': [list(h) for h in hist]}
+            # the third extension (.yaml) takes the same code path as .yml: it is exercised on every model
+            # reachable in <= 3 calls and on all decorated / shipped models
+            viols += roundtrip(system.fx, sp, c.model, case, stats,
+                               formats=FORMATS if len(hist) <= HANDWRITTEN_DEPTH else FORMATS[:2])
             if len(hist) <= HANDWRITTEN_DEPTH:
                 viols += handwritten(system.fx, sp, c.model, case, stats)
+            stats['models'] = stats.get('models', 0) + 1
+    elif kind == 'corelang':
+        import os
+        from maltoolbox.model import Model
+        sp = langs.mar_spec(os.path.join(sandbox.TESTDATA, 'org.mal-lang.coreLang-1.0.0.mar'))
+        fxc = langs.fixture(sp, key='coreLang')
+        for fname in items:
+            m = Model.load_from_file(os.path.join(sandbox.TESTDATA, fname), fxc.factory)
+            case = {'source': 'file', 'language': 'coreLang', 'file': fname}
+            viols += roundtrip(fxc, sp, m, case, stats)
+            viols += handwritten(fxc, sp, m, case, stats)
             stats['models'] = stats.get('models', 0) + 1
     else:
         for d in items:
@@ -291,7 +307,12 @@ def run(tier, seed):
         if key not in by_content or len(hist) < len(by_content[key]):
             by_content[key] = hist
     hists = common.rotate([by_content[k] for k in sorted(by_content)], seed)
-    jobs = [('hist', hists[i:i + 16]) for i in range(0, len(hists), 16)]
+    jobs = [('hist', ('OPS', hists[i:i + 16])) for i in range(0, len(hists), 16)]
+    # several languages: a deeper inheritance chain with other multiplicities, and coreLang with the shipped models
+    from . import c18
+    h2 = c18.distinct_histories('OPS2', depth - 1, 0, scratch, seed)
+    jobs += [('hist', ('OPS2', h2[i:i + 16])) for i in range(0, len(h2), 16)]
+    jobs.append(('corelang', ['simple_example_model.json', 'scad_equivalent_model.yml']))
     dm = decorated_models()
     jobs += [('deco', dm[i:i + 4]) for i in range(0, len(dm), 4)]
     for stats, viols in common.pmap(_job, jobs):
@@ -315,10 +336,14 @@ def replay(path):
     sp = families.ops_lang()
     stats = {}
     if c['source'] == 'history':
-        system = make_system(('OPS',))
+        lname = c.get('language', 'OPS')
+        sp = lang_spec(lname)
+        system = make_system((lname,))
         hist = tuple(tuple(_t(x) for x in op) for op in c['history'])
         ctx = engine_hist.replay(system, hist)
         vs = roundtrip(system.fx, sp, ctx.model, c, stats) + handwritten(system.fx, sp, ctx.model, c, stats)
+    elif c['source'] == 'file':
+        stats, vs = _job(('corelang', [c['file']]))
     else:
         fx = langs.fixture(sp)
         d = dict(c['model'])
